@@ -473,7 +473,7 @@ func (p *c04) runSched(r *core.CaseResult, c *c04case, sql string) {
 
 func (p *c04) Meta() core.Meta {
 	return core.Meta{
-		Rule: "one case per (ON expression: 11 single comparisons in both orientations, 16 AND pairs in both orders, 6 OR pairs, 3-conjunct and repeated-column forms; key columns named differently on the two sides; a representative subset also with table aliases one of which is a prefix of the other, and with the table names themselves as aliases) x (14 join kinds: JOIN/LEFT/RIGHT x auto/HASH_JOIN, STRAIGHT_JOIN, each also PARALLEL), run on every pair of tables of <= 2 (thorough 3) rows over 4 archetypes per side (duplicate keys, two string key columns that collide under textual concatenation) plus one pair of 17 x 13 rows and one pair whose numeric keys differ only far behind the decimal point, and compared as a multiset with the textbook nested-loop join; a representative ON set x all kinds also with the join inside a CTE that is read twice (UNION ALL: the result must be the textbook multiset twice); plus exploration cases: a representative ON set x all kinds on a subset of table pairs under every Go-map iteration order and (PARALLEL) every thread schedule within the deviation bound. non-trivial = the textbook result is a non-empty proper subset of the cross product / more than one execution explored",
+		Rule: "one case per (ON expression: 11 single comparisons in both orientations, 16 AND pairs in both orders, 6 OR pairs, 3-conjunct and repeated-column forms; key columns named differently on the two sides; a representative subset also with table aliases one of which is a prefix of the other, and with the table names themselves as aliases) x (14 join kinds: JOIN/LEFT/RIGHT x auto/HASH_JOIN, STRAIGHT_JOIN, each also PARALLEL), run on every pair of tables of <= 2 (thorough 3) rows over 4 archetypes per side (duplicate keys, two string key columns that collide under textual concatenation) plus one pair of 17 x 13 rows and one pair whose numeric keys differ only far behind the decimal point, and compared as a multiset with the textbook nested-loop join; a representative ON set x all kinds also with the join inside a CTE that is read twice (UNION ALL: the result must be the textbook multiset twice); plus exploration cases: a representative ON set x all kinds on a subset of table pairs under every Go-map iteration order and (PARALLEL) every thread schedule within the deviation bound. non-trivial = the textbook result is a non-empty proper subset of the cross product / more than one execution explored; one pair of tables with int64 keys beyond 2^53 that differ by less than the spacing of doubles (compared and printed exactly by the reference)",
 		Assumptions: []string{
 			"key columns hold non-NULL values of one scalar kind; ON compares a left column with a right column",
 			"outer rows carry NULL under the other alias; the result is compared as a multiset (order is not fixed by the property)",
